@@ -50,15 +50,19 @@ def spell_arg(rng, v, depth=0):
     mapping that has an escaped key), as Unparse.tla UnparseArgD does"""
     if isinstance(v, PathArg):
         return spell_path(rng, v.rparts, v.dt, v.mt)
-    if isinstance(v, list):
+    if isinstance(v, (list, tuple)):
+        # (a spec is a python structure: a tuple argument is written as a tuple, and the condition then holds a tuple)
         if depth == 0:
-            return [spell_arg(rng, i, depth + 1) for i in v]
+            return type(v)(spell_arg(rng, i, depth + 1) for i in v)
         return v
     if isinstance(v, dict):
         path_like = any(isinstance(k, str) and k.lower().startswith("path") for k in v)
         recurse = depth == 0 and not path_like
+        items = list(v.items())
+        if len(items) > 1 and rng.random() < 0.3:
+            items.reverse()                  # the entries of a mapping in another order are the same mapping
         return {(("\\" + k) if isinstance(k, str) and k.lower().startswith("path") else k):
-                (spell_arg(rng, x, depth + 1) if recurse else x) for k, x in v.items()}
+                (spell_arg(rng, x, depth + 1) if recurse else x) for k, x in items}
     return v
 
 
@@ -89,7 +93,10 @@ def spell_leaf(rng, rec):
     elif fn in VARPOS:
         val = [conv(a, 1) for a in acts]
     elif fn == "items_contain":
-        val = {k: conv(v, 1) for k, v in akw.items()}
+        items = [(k, conv(v, 1)) for k, v in akw.items()]
+        if rng.random() < 0.4:
+            items.reverse()                  # the entries of a mapping in another order are the same mapping
+        val = dict(items)
     elif fn in PARAMS:
         ps = PARAMS[fn]
         bound = {}
